@@ -20,7 +20,7 @@ from .. import oracle
 from .. import rops as R
 from ..gen import Gen, Universe
 from ..jet import IllConditioned
-from ..passcheck import node_classes, skeleton
+from ..passcheck import node_classes, safe_str, skeleton
 from ..seval import CB, S, StructureMismatch
 from ..world import Ambiguous, Unsupported
 
@@ -49,7 +49,7 @@ OPS = [
     "add", "sub", "mul", "div", "pow", "neg", "abs", "conj", "real", "imag", "radd", "rmul", "rsub", "rdiv", "rpow",
     "getitem", "getitem", "getitem", "as_tensor_idx", "as_tensor_idx", "stack", "stack", "stack_rows_views", "dot", "inner", "outer", "cross", "perp",
     "transpose", "tr", "det", "inv", "cofac", "dev", "skew", "sym", "diag", "diag_vector", "elem_mult", "elem_div", "elem_pow",
-    "conditional", "sign", "minmax", "math", "atan2", "bessel", "mul_chain", "sum_chain",
+    "conditional", "sign", "minmax", "math", "atan2", "bessel", "mul_chain", "sum_chain", "unary_chain", "unary_chain",
 ]
 COVER_FLOORS = {"quick": {"ops_held": sorted(set(OPS) - {"rpow"})}, "thorough": {"ops_held": sorted(set(OPS))}}
 CELLS = [("interval", 1), ("triangle", 2), ("triangle", 2), ("tetrahedron", 3)]
@@ -392,6 +392,25 @@ def build(rng, U, G, op, cplx):
         b = Operand(2 + ufl.as_ufl(a.obj) ** 2 if not ufl.as_ufl(a.obj).ufl_free_indices else 2 + abs(ufl.as_ufl(a.obj)), "prepared")
         fn = {"J": ufl.bessel_J, "Y": ufl.bessel_Y, "I": ufl.bessel_I, "K": ufl.bessel_K}[kind]
         return (lambda: fn(nu, b.obj)), (lambda x: R.bessel(kind, nu, x)), [b]
+    if op == "unary_chain":
+        # the same / related unary operators applied repeatedly: abs(abs(.)), conj(conj(.)), abs(conj(.)), real(conj(.)), ...
+        names = [rng.choice(["abs", "conj", "real", "imag", "neg", "abs"]) for _ in range(rng.choice([2, 2, 3]))]
+        a = A(sh, hostile=rng.random() < 0.3)
+        fs = {"neg": lambda x: -x, "abs": abs, "conj": ufl.conj, "real": ufl.real, "imag": ufl.imag}
+        rs = {"neg": R.neg, "abs": R.absolute, "conj": R.conj, "real": R.real, "imag": R.imag}
+
+        def mk():
+            r = ufl.as_ufl(a.obj)
+            for nme in names:
+                r = fs[nme](r)
+            return r
+
+        def rr(x):
+            for nme in names:
+                x = rs[nme](x)
+            return x
+
+        return mk, rr, [a]
     if op == "mul_chain":
         xs = [A(()) for _ in range(rng.choice([3, 4]))]
 
@@ -495,6 +514,10 @@ def case(ctx, i, rng):
             verdicts.append("disagree")
             detail = "result is structurally inconsistent: " + str(ex)
             continue
+        except RecursionError:
+            verdicts.append("disagree")
+            detail = "result is not a finite tree (a node reachable from itself): evaluation recursed without end"
+            continue
         except (Unsupported, Ambiguous, IllConditioned):
             verdicts.append("skipped")
             continue
@@ -545,7 +568,7 @@ def case(ctx, i, rng):
         else:
             key = f"C05/{op}/value/{'+'.join(kinds)}->{rescls}"
             desc = f"{op}: {detail}"
-        ctx.violation(key, desc, {"operands": [str(o.obj)[:300] for o in ops], "result": str(res)[:400], "kinds": kinds})
+        ctx.violation(key, desc, {"operands": [safe_str(o.obj, 300) for o in ops], "result": safe_str(res), "kinds": kinds})
     elif verdicts.count("agree") >= 1 and "inconclusive" not in verdicts[:1]:
         ctx.count("held")
         ctx.covered("ops_held", op)
@@ -558,7 +581,7 @@ def case(ctx, i, rng):
         ctx.count("violated")
         ctx.violation(f"C05/{op}/accepts-one-index-over-different-dimensions",
                       f"{op}: UFL accepted operands in which one Index object ranges over two different dimensions",
-                      {"operands": [str(o.obj)[:300] for o in ops], "result": str(res)[:400], "kinds": kinds})
+                      {"operands": [safe_str(o.obj, 300) for o in ops], "result": safe_str(res), "kinds": kinds})
     elif "r-rejects" in verdicts:
         ctx.count("r_rejects_but_ufl_accepts")
         ctx.covered("r_rejects_but_ufl_accepts", op + ":" + "+".join(kinds))
